@@ -231,21 +231,6 @@ Proof.
     + destruct (IH u d H) as [d' Hd']. exists d'. right. exact Hd'.
 Qed.
 
-Lemma fold_max_ge : forall l x, In x l -> x <= fold_right Nat.max 0 l.
-Proof.
-  induction l as [|a l IH]; intros x Hx; [contradiction|].
-  destruct Hx as [<-|Hx]; simpl; [lia|]. specialize (IH x Hx). lia.
-Qed.
-
-Lemma fold_max_in : forall l, l <> [] -> In (fold_right Nat.max 0 l) l.
-Proof.
-  induction l as [|a l IH]; intros H; [congruence|]. simpl.
-  destruct l as [|b l]; [left; simpl; lia|].
-  destruct (le_lt_dec (fold_right Nat.max 0 (b :: l)) a) as [Hle|Hlt].
-  - left. lia.
-  - right. rewrite Nat.max_r by lia. apply IH. discriminate.
-Qed.
-
 (* state of the loop: entries of final_depth are heights of queried nodes; every member of
    subnodes is a proper ancestor of a node that has an entry *)
 Record NdInv (g : dg) (all : list nat) (fd : list (nat * nat)) (sub : list nat) : Prop := {
@@ -316,4 +301,196 @@ Proof.
            ++ left. exists (S H). apply dict_set_has.
       * left. split; [reflexivity|]. exists v. auto.
       * exact I.
+Qed.
+
+(* ---------------------------------------------------------------------------------------- *)
+(* node_depth: soundness for every fuel, totality, and the iff statements                    *)
+(* ---------------------------------------------------------------------------------------- *)
+Theorem node_depth_fuel_sound : forall g fuel vs z, node_depth_fuel fuel g vs = Ok z ->
+  (z = (-1)%Z /\ exists v, In v vs /\ cycle_from g v) \/ (exists k, z = Z.of_nat k /\ lheight g vs k).
+Proof.
+  intros g fuel vs z H. unfold node_depth_fuel in H.
+  assert (Hinv : NdInv g vs [] []) by (constructor; [intros ? ? []|intros ? []]).
+  pose proof (nd_nodes_ok g fuel vs vs [] [] [] Hinv (fun v (F : In v []) => match F with end) eq_refl) as P.
+  rewrite H in P. exact P.
+Qed.
+
+Lemma nd_nodes_fuel : forall g, wf g -> forall vs fd sub, (forall v, In v vs -> v < length g) ->
+  nd_nodes (S (length g)) g vs fd sub <> OutOfFuel.
+Proof.
+  intros g Hwf. induction vs as [|v r IH]; intros fd sub Hr.
+  - cbn [nd_nodes]. destruct fd; discriminate.
+  - cbn [nd_nodes]. assert (Hr' : forall w, In w r -> w < length g) by (intros w Hw; apply Hr; right; exact Hw).
+    destruct (memb v sub); [apply IH; exact Hr'|].
+    assert (F : dexplore (S (length g)) g fd v 1 [v] sub 0 <> DFuel).
+    { apply (dexplore_fuel g fd Hwf (S (length g)) 1); [lia| | |simpl; lia].
+      - constructor; [intros []|constructor].
+      - intros x [<-|[]]. apply Hr. left. reflexivity. }
+    destruct (dexplore (S (length g)) g fd v 1 [v] sub 0); [apply IH; exact Hr'|discriminate|congruence].
+Qed.
+
+Lemma lheight_no_cycle : forall g vs k, lheight g vs k -> forall v, In v vs -> ~ cycle_from g v.
+Proof. intros g vs k [_ H] v Hv. apply (bounded_no_cycle g v k). intros l Hl. apply (H v l Hv Hl). Qed.
+
+Lemma lheight_unique : forall g vs a b, lheight g vs a -> lheight g vs b -> a = b.
+Proof.
+  intros g vs a b [[va [la [Hva [Hla Ea]]]] Ua] [[vb [lb [Hvb [Hlb Eb]]]] Ub].
+  specialize (Ua vb lb Hvb Hlb). specialize (Ub va la Hva Hla). lia.
+Qed.
+
+Lemma lheight_single : forall g v k, lheight g [v] k <-> height g v k.
+Proof.
+  intros g v k. unfold lheight, height. split.
+  - intros [[w [l [[<-|[]] [Hl E]]]] U]. split; [exists l; auto|]. intros l' Hl'. apply (U v l'); [left; reflexivity|exact Hl'].
+  - intros [[l [Hl E]] U]. split; [exists v, l; simpl; auto|]. intros w l' [<-|[]] Hl'. apply U. exact Hl'.
+Qed.
+
+(* T1.5 for a non-empty list of nodes: -1 iff a cycle is reachable from one of them, otherwise
+   the number of nodes on the longest path starting in one of them *)
+Theorem node_depth_list_correct : forall g vs, wf g -> (forall v, In v vs -> v < length g) -> vs <> [] ->
+  (node_depth_list g vs = Ok (-1)%Z <-> exists v, In v vs /\ cycle_from g v) /\
+  (forall k, node_depth_list g vs = Ok (Z.of_nat k) <-> lheight g vs k) /\
+  ((forall v, In v vs -> ~ cycle_from g v) -> exists k, node_depth_list g vs = Ok (Z.of_nat k)).
+Proof.
+  intros g vs Hwf Hr Hne. unfold node_depth_list.
+  pose proof (nd_nodes_fuel g Hwf vs [] [] Hr) as F.
+  pose proof (node_depth_fuel_sound g (S (length g)) vs) as S0. unfold node_depth_fuel in *.
+  assert (Hraise : nd_nodes (S (length g)) g vs [] [] <> Raise).
+  { intros E. assert (Hinv : NdInv g vs [] []) by (constructor; [intros ? ? []|intros ? []]).
+    pose proof (nd_nodes_ok g (S (length g)) vs vs [] [] [] Hinv (fun v (F : In v []) => match F with end) eq_refl) as P.
+    rewrite E in P. contradiction. }
+  destruct (nd_nodes (S (length g)) g vs [] []) as [z| |]; [|congruence|congruence].
+  specialize (S0 z eq_refl). split; [|split].
+  - split.
+    + intros E. injection E as ->. destruct S0 as [[_ C]|[k [E _]]]; [exact C|lia].
+    + intros [v [Hv C]]. destruct S0 as [[-> _]|[k [_ L]]]; [reflexivity|].
+      exfalso. apply (lheight_no_cycle g vs k L v Hv C).
+  - intros k. split.
+    + intros E. injection E as ->. destruct S0 as [[E _]|[k' [E L]]]; [lia|].
+      apply Nat2Z.inj in E. subst k'. exact L.
+    + intros L. destruct S0 as [[_ [v [Hv C]]]|[k' [-> L']]].
+      * exfalso. apply (lheight_no_cycle g vs k L v Hv C).
+      * rewrite (lheight_unique g vs k k' L L'). reflexivity.
+  - intros Hnc. destruct S0 as [[_ [v [Hv C]]]|[k [-> _]]].
+    + exfalso. apply (Hnc v Hv C).
+    + exists k. reflexivity.
+Qed.
+
+(* T1.5 for one node *)
+Theorem node_depth_correct : forall g v, wf g -> v < length g ->
+  (node_depth g v = Ok (-1)%Z <-> cycle_from g v) /\
+  (forall k, node_depth g v = Ok (Z.of_nat k) <-> height g v k) /\
+  (~ cycle_from g v -> exists k, node_depth g v = Ok (Z.of_nat k)).
+Proof.
+  intros g v Hwf Hv. unfold node_depth.
+  assert (Hr : forall w, In w [v] -> w < length g) by (intros w [<-|[]]; exact Hv).
+  destruct (node_depth_list_correct g [v] Hwf Hr ltac:(discriminate)) as [H1 [H2 H3]].
+  split; [|split].
+  - rewrite H1. split.
+    + intros [w [[<-|[]] C]]. exact C.
+    + intros C. exists v. split; [left; reflexivity|exact C].
+  - intros k. rewrite H2. apply lheight_single.
+  - intros C. apply H3. intros w [<-|[]]. exact C.
+Qed.
+
+(* ---------------------------------------------------------------------------------------- *)
+(* LinkedGraph.depth                                                                         *)
+(* ---------------------------------------------------------------------------------------- *)
+Lemma topo_split : forall g a c b, topo g (a ++ c :: b) -> incl (parents g c) b.
+Proof. intros g a c b H. apply topo_app_r in H. destruct H as [H _]. exact H. Qed.
+
+(* in an acyclic graph every node is reached from a sink *)
+Lemma sink_reaches_aux : forall g fin, wf g -> topo g fin -> NoDup fin -> (forall v, v < length g -> In v fin) ->
+  forall a b, fin = a ++ b -> forall v, In v a -> v < length g -> exists s, sink g s /\ reach g s v.
+Proof.
+  intros g fin Hwf Htopo Hnd Hall. induction a as [|v a IH] using rev_ind; intros b Hfin w Hw Hlt; [contradiction|].
+  rewrite <- app_assoc in Hfin. simpl in Hfin.
+  apply in_app_or in Hw. destruct Hw as [Hw|[<-|[]]]; [apply (IH (v :: b) Hfin w Hw Hlt)|].
+  destruct (sink_dec g v) as [S|NS]; [exists v; split; [exact S|apply reach_refl]|].
+  destruct (not_sink_child g v Hlt NS) as [c [Hc E]].
+  assert (Hvnot : ~ In v (a ++ b)) by (apply NoDup_remove_2; rewrite <- Hfin; exact Hnd).
+  pose proof (Hall c Hc) as Hcin. rewrite Hfin in Hcin. apply in_app_or in Hcin.
+  destruct Hcin as [Hca|[<-|Hcb]].
+  - destruct (IH (v :: b) Hfin c Hca Hc) as [s [Hs R]]. exists s. split; [exact Hs|eapply reach_snoc; eauto].
+  - exfalso. apply Hvnot. apply in_or_app. right.
+    rewrite Hfin in Htopo. apply (topo_split g a v b Htopo). exact E.
+  - exfalso. apply in_split in Hcb. destruct Hcb as [b1 [b2 ->]].
+    apply Hvnot. apply in_or_app. right. apply in_or_app. right. right.
+    assert (Hs : fin = (a ++ v :: b1) ++ c :: b2) by (rewrite Hfin, <- app_assoc; reflexivity).
+    rewrite Hs in Htopo. apply (topo_split g _ c b2 Htopo). exact E.
+Qed.
+
+Lemma sink_reaches : forall g, wf g -> has_cycle g = Some false ->
+  forall v, v < length g -> exists s, sink g s /\ reach g s v.
+Proof.
+  intros g Hwf H v Hv. destruct (has_cycle_false_topo g _ H) as [fin [Ht [Hnd Hall]]].
+  apply (sink_reaches_aux g fin Hwf Ht Hnd Hall fin [] (eq_sym (app_nil_r fin)) v (Hall v Hv) Hv).
+Qed.
+
+(* a non-empty graph without sinks has a cycle *)
+Lemma no_sink_cyclic : forall g, wf g -> g <> [] -> root_nodes g = [] -> cyclic g.
+Proof.
+  intros g Hwf Hne Hroots. destruct (has_cycle_terminates g Hwf) as [b Hb]. destruct b.
+  - apply (has_cycle_correct g _ true Hb). reflexivity.
+  - exfalso. assert (H0 : 0 < length g) by (destruct g; [congruence|simpl; lia]).
+    destruct (sink_reaches g Hwf Hb 0 H0) as [s [Hs _]].
+    apply root_nodes_spec in Hs. rewrite Hroots in Hs. exact Hs.
+Qed.
+
+Lemma gheight_no_cycle : forall g k, gheight g k -> ~ cyclic g.
+Proof.
+  intros g k [_ U] [v C]. assert (Hv : v < length g) by (destruct C as [p [E _]]; eapply edge_src_lt; eauto).
+  apply (bounded_no_cycle g v k); [intros l Hl; apply (U v l Hv Hl)|].
+  exists v. split; [apply reach_refl|exact C].
+Qed.
+
+Lemma roots_lheight : forall g k, wf g -> has_cycle g = Some false ->
+  (lheight g (root_nodes g) k <-> gheight g k).
+Proof.
+  intros g k Hwf Hc. split.
+  - intros [[v [l [Hv [Hl E]]]] U]. split.
+    + exists v, l. apply root_nodes_spec in Hv. split; [apply Hv|auto].
+    + intros w l' Hw Hl'. destruct (sink_reaches g Hwf Hc w Hw) as [s [Hs R]].
+      destruct (reach_gpath g s w R) as [a [Ha Hla]].
+      assert (P : gpath g s (a ++ l')) by (apply gpath_app; rewrite Hla; auto).
+      apply root_nodes_spec in Hs. specialize (U s (a ++ l') Hs P). rewrite app_length in U. lia.
+  - intros [[v [l [Hv [Hl E]]]] U]. split.
+    + destruct (sink_reaches g Hwf Hc v Hv) as [s [Hs R]].
+      destruct (reach_gpath g s v R) as [a [Ha Hla]].
+      assert (P : gpath g s (a ++ l)) by (apply gpath_app; rewrite Hla; auto).
+      pose proof (U s (a ++ l) (proj1 Hs) P) as B. rewrite app_length in B.
+      exists s, (a ++ l). split; [apply root_nodes_spec; exact Hs|]. split; [exact P|].
+      rewrite app_length. lia.
+    + intros w l' Hw Hl'. apply root_nodes_spec in Hw. apply (U w l' (proj1 Hw) Hl').
+Qed.
+
+(* T1.6 *)
+Theorem depth_correct : forall g, wf g ->
+  (g = [] -> depth g = Ok 0%Z) /\
+  (g <> [] -> (depth g = Ok (-1)%Z <-> cyclic g) /\
+              (forall k, depth g = Ok (Z.of_nat k) <-> gheight g k) /\
+              (~ cyclic g -> exists k, depth g = Ok (Z.of_nat k))).
+Proof.
+  intros g Hwf. split; [intros ->; reflexivity|]. intros Hne.
+  unfold depth. destruct g as [|row g'] eqn:Eg; [congruence|]. rewrite <- Eg in *. clear Eg row g'.
+  destruct (root_nodes g) as [|r0 rs] eqn:Er.
+  - pose proof (no_sink_cyclic g Hwf Hne Er) as C. split; [|split].
+    + tauto.
+    + intros k. split; [intros E; injection E; lia|]. intros G. exfalso. apply (gheight_no_cycle g k G C).
+    + intros NC. contradiction.
+  - rewrite <- Er in *. destruct (has_cycle_terminates g Hwf) as [b Hb]. rewrite Hb.
+    pose proof (has_cycle_correct g _ b Hb) as HC. destruct b.
+    + assert (C : cyclic g) by (apply HC; reflexivity). split; [|split].
+      * tauto.
+      * intros k. split; [intros E; injection E; lia|]. intros G. exfalso. apply (gheight_no_cycle g k G C).
+      * intros NC. contradiction.
+    + assert (NC : ~ cyclic g) by (intros C; apply HC in C; discriminate).
+      assert (Hr : forall v, In v (root_nodes g) -> v < length g) by (intros v Hv; apply root_nodes_spec in Hv; apply Hv).
+      assert (Hrne : root_nodes g <> []) by (rewrite Er; discriminate).
+      destruct (node_depth_list_correct g (root_nodes g) Hwf Hr Hrne) as [H1 [H2 H3]].
+      split; [|split].
+      * rewrite H1. split; [|intros C; contradiction].
+        intros [v [_ C]]. eapply on_cycle_cyclic. exact C.
+      * intros k. rewrite H2. apply roots_lheight; assumption.
+      * intros _. apply H3. intros v _ C. apply NC. eapply on_cycle_cyclic. exact C.
 Qed.
